@@ -7,6 +7,7 @@ to be an index, an index built earlier in the same activation) are well-formed; 
 value STORED must be shown well-formed again.
 """
 from . import terms as tm
+from .symex import flat_guards
 from .terms import T
 
 U32, I64, UNK = "uint32", "int64", "unknown"
@@ -179,7 +180,7 @@ class Analyzer:
 
     def any_guard(self, m, guards):
         """numpy.any(m) (or m.any()) holds."""
-        for c, pol in guards:
+        for c, pol in flat_guards(guards):
             if pol and ((is_call(c, "numpy.any") and c.args[1][0] == m) or (method(c) == "any" and recv(c) == m)):
                 return True
             if pol and is_call(c, "numpy.count_nonzero") and c.args[1][0] == m:
@@ -187,7 +188,7 @@ class Analyzer:
         return False
 
     def not_all_guard(self, m, guards):
-        for c, pol in guards:
+        for c, pol in flat_guards(guards):
             if (not pol) and ((is_call(c, "numpy.all") and c.args[1][0] == m) or (method(c) == "all" and recv(c) == m)):
                 return True
         return False
